@@ -71,6 +71,10 @@ impl PingPong {
 
     /// Can only be called once. If called a second time, returns `None`.
     pub(crate) fn take_user_pings(&mut self) -> Option<UserPings> {
+        #[cfg(feature = "verif-hooks")]
+        crate::verif::ev("ping.take_user_pings", || {
+            vec![self.user_pings.is_some() as i64]
+        });
         if self.user_pings.is_some() {
             return None;
         }
@@ -85,6 +89,8 @@ impl PingPong {
     }
 
     pub(crate) fn ping_shutdown(&mut self) {
+        #[cfg(feature = "verif-hooks")]
+        crate::verif::ev("ping.ping_shutdown", || self.verif_args(&[]));
         assert!(self.pending_ping.is_none());
 
         self.pending_ping = Some(PendingPing {
@@ -95,6 +101,11 @@ impl PingPong {
 
     /// Process a ping
     pub(crate) fn recv_ping(&mut self, ping: Ping) -> ReceivedPing {
+        #[cfg(feature = "verif-hooks")]
+        let _verif = crate::verif::enter("ping.recv_ping", || {
+            let (hi, lo) = verif_halves(ping.payload());
+            self.verif_args(&[ping.is_ack() as i64, hi, lo])
+        });
         // The caller should always check that `send_pongs` returns ready before
         // calling `recv_ping`.
         assert!(self.pending_pong.is_none());
@@ -144,12 +155,21 @@ impl PingPong {
         T: AsyncWrite + Unpin,
         B: Buf,
     {
+        #[cfg(feature = "verif-hooks")]
+        crate::verif::ev("ping.send_pending_pong", || self.verif_args(&[]));
         if let Some(pong) = self.pending_pong.take() {
             if !dst.poll_ready(cx)?.is_ready() {
+                #[cfg(feature = "verif-hooks")]
+                crate::verif::ev("ping.blocked_pong", Vec::new);
                 self.pending_pong = Some(pong);
                 return Poll::Pending;
             }
 
+            #[cfg(feature = "verif-hooks")]
+            crate::verif::ev("ping.emit_pong", || {
+                let (hi, lo) = verif_halves(&pong);
+                vec![hi, lo]
+            });
             dst.buffer(Ping::pong(pong).into())
                 .expect("invalid pong frame");
         }
@@ -167,12 +187,21 @@ impl PingPong {
         T: AsyncWrite + Unpin,
         B: Buf,
     {
+        #[cfg(feature = "verif-hooks")]
+        crate::verif::ev("ping.send_pending_ping", || self.verif_args(&[]));
         if let Some(ref mut ping) = self.pending_ping {
             if !ping.sent {
                 if !dst.poll_ready(cx)?.is_ready() {
+                    #[cfg(feature = "verif-hooks")]
+                    crate::verif::ev("ping.blocked_ping", Vec::new);
                     return Poll::Pending;
                 }
 
+                #[cfg(feature = "verif-hooks")]
+                crate::verif::ev("ping.emit_ping", || {
+                    let (hi, lo) = verif_halves(&ping.payload);
+                    vec![hi, lo, 0]
+                });
                 dst.buffer(Ping::new(ping.payload).into())
                     .expect("invalid ping frame");
                 ping.sent = true;
@@ -180,9 +209,16 @@ impl PingPong {
         } else if let Some(ref users) = self.user_pings {
             if users.0.state.load(Ordering::Acquire) == USER_STATE_PENDING_PING {
                 if !dst.poll_ready(cx)?.is_ready() {
+                    #[cfg(feature = "verif-hooks")]
+                    crate::verif::ev("ping.blocked_ping", Vec::new);
                     return Poll::Pending;
                 }
 
+                #[cfg(feature = "verif-hooks")]
+                crate::verif::ev("ping.emit_ping", || {
+                    let (hi, lo) = verif_halves(&Ping::USER);
+                    vec![hi, lo, 1]
+                });
                 dst.buffer(Ping::new(Ping::USER).into())
                     .expect("invalid ping frame");
                 users
@@ -190,6 +226,8 @@ impl PingPong {
                     .state
                     .store(USER_STATE_PENDING_PONG, Ordering::Release);
             } else {
+                #[cfg(feature = "verif-hooks")]
+                crate::verif::ev("ping.register_ping_task", Vec::new);
                 users.0.ping_task.register(cx.waker());
             }
         }
@@ -219,6 +257,8 @@ impl UserPings {
             )
             .unwrap_or_else(|v| v);
 
+        #[cfg(feature = "verif-hooks")]
+        crate::verif::ev("ping.user_send", || vec![prev as i64]);
         match prev {
             USER_STATE_EMPTY => {
                 self.0.ping_task.wake();
@@ -247,6 +287,8 @@ impl UserPings {
             )
             .unwrap_or_else(|v| v);
 
+        #[cfg(feature = "verif-hooks")]
+        crate::verif::ev("ping.user_poll_pong", || vec![prev as i64]);
         match prev {
             USER_STATE_RECEIVED_PONG => Poll::Ready(Ok(())),
             USER_STATE_CLOSED => Poll::Ready(Err(broken_pipe().into())),
@@ -270,6 +312,8 @@ impl UserPingsRx {
             )
             .unwrap_or_else(|v| v);
 
+        #[cfg(feature = "verif-hooks")]
+        crate::verif::ev("ping.user_receive_pong", || vec![prev as i64]);
         if prev == USER_STATE_PENDING_PONG {
             self.0.pong_task.wake();
             true
@@ -281,6 +325,10 @@ impl UserPingsRx {
 
 impl Drop for UserPingsRx {
     fn drop(&mut self) {
+        #[cfg(feature = "verif-hooks")]
+        crate::verif::ev("ping.user_closed", || {
+            vec![self.0.state.load(Ordering::Acquire) as i64]
+        });
         self.0.state.store(USER_STATE_CLOSED, Ordering::Release);
         self.0.pong_task.wake();
     }
@@ -288,4 +336,40 @@ impl Drop for UserPingsRx {
 
 fn broken_pipe() -> io::Error {
     io::ErrorKind::BrokenPipe.into()
+}
+
+// ===== verification hooks (feature `verif-hooks`, off by default; add-only) =====
+
+#[cfg(feature = "verif-hooks")]
+fn verif_halves(p: &PingPayload) -> (i64, i64) {
+    (
+        u32::from_be_bytes([p[0], p[1], p[2], p[3]]) as i64,
+        u32::from_be_bytes([p[4], p[5], p[6], p[7]]) as i64,
+    )
+}
+
+#[cfg(feature = "verif-hooks")]
+impl PingPong {
+    fn verif_args(&self, head: &[i64]) -> Vec<i64> {
+        let mut v = head.to_vec();
+        match &self.pending_ping {
+            None => v.extend([0, 0, 0]),
+            Some(p) => {
+                let (hi, lo) = verif_halves(&p.payload);
+                v.extend([if p.sent { 2 } else { 1 }, hi, lo]);
+            }
+        }
+        match &self.pending_pong {
+            None => v.extend([0, 0, 0]),
+            Some(p) => {
+                let (hi, lo) = verif_halves(p);
+                v.extend([1, hi, lo]);
+            }
+        }
+        v.push(match &self.user_pings {
+            None => -1,
+            Some(u) => u.0.state.load(Ordering::Acquire) as i64,
+        });
+        v
+    }
 }
